@@ -36,7 +36,7 @@ CHECKS = {
    text="Three sources of histories checked call by call against a small reference state machine of the three-level cache: (1) regsim drives the real registry directly with generated creation trees and enumerates every failure position of every tree, then continues with lookups, direct get-or-creates and re-creates; (2) a tracer on every real start, fault-free and with every discovered callback site failing (transient and permanent), (3) GetComponentByName for every component on the same App after each failed start (black box). Complete per explored tree / start; trees and programs are sampled by seed. regsim factories may publish their own name themselves and may hand back what they built together with the error. Since wave 18 regsim also asks for the creation of names that are in creation (refused, the factory never runs) and lets factories publish an interim object under their own name; startsim processors may look components up from PostProcessBeforeInstantiation.",
    note="the tracer is a pass-through decorator installed through hook H1", technique="deterministic simulation with fault injection: enumerated creation failures on generated creation trees (regsim) and on real starts (startsim); oracle: executable reference state machine of the singleton cache"),
  "C05": dict(cat="exploration", engine="startsim", ref="5/C05",
-   text="Seeded DAGs / diamonds / cycles with tails, lazy-eager mixes and 1-4 observing post-processors of all classes, under K schedules. Event-log checker: before* < AfterPropertiesSet < Init < after*, each at most once on any run and exactly once on successful ones; wiring and configuration snapshot at the first before-init callback equals the final population; when Init(c) runs every dependency that does not depend back on c has finished; lazy components have a lifecycle iff a created component holds or names them. A few discovered callback sites (early-reference callbacks first) are also made to fail in turn: once per creation attempt and in lifecycle order is judged on every run. Since wave 18 substitutes may be decorators that embed the component (its Init / AfterPropertiesSet are the component's own), and instantiation-aware processors may look components up before instantiation.",
+   text="Seeded DAGs / diamonds / cycles with tails, lazy-eager mixes and 1-4 observing post-processors of all classes, under K schedules. Event-log checker: before* < AfterPropertiesSet < Init < after*, each at most once on any run and exactly once on successful ones; wiring and configuration snapshot at the first before-init callback equals the final population; when Init(c) runs every dependency that does not depend back on c has finished; lazy components have a lifecycle iff a created component holds or names them. A few discovered callback sites (early-reference callbacks first) are also made to fail in turn: once per creation attempt and in lifecycle order is judged on every run. Since wave 18 substitutes may be decorators that embed the component (its Init / AfterPropertiesSet are the component's own), and instantiation-aware processors may look components up before instantiation. After the start the harness queries by interface and looks every component up by name: a query creates what it selects and what that needs, no other LazyInit component; every non-lazy instantiation-aware processor is asked exactly once after a component was instantiated.",
    note="dependencies-first is judged on the observed wiring graph; substituting programs are exempt", technique=STARTSIM + "; oracle: event-log lifecycle checker"),
  "C09": dict(cat="fault_enumeration", engine="startsim", ref="5/C09",
    text="Per generated program and explored schedule every callback site discovered by the fault-free run (Init, AfterPropertiesSet, every post-processor callback for every component including the container's own) is made to fail singly - exhaustive per (program, schedule) - plus sampled pairs; unsatisfiable required / optional points are judged by the start-outcome model. Oracle: Run returns an error, no panic, terminates, no runner invoked; optional-only shortfalls never fail and leave the field empty. A share of the substituting family is included (a failure inside a lookup whose caller copes with the error is not Run's to report).",
